@@ -6,6 +6,8 @@ CONSTANTS
   Strategies = {"MASTER", "BOTH", "REPLICA"}
   Kinds = {"read", "write", "unsupported", "local"}
   MaxReq = 2
+  MaxUpdates = 0
+  StickyStrategy = FALSE
   SharedScratch = TRUE
 INVARIANTS TypeOK OnlySupportedReachBackends WritesToOwningMaster RoutedWithinOwnerFamily
 CHECK_DEADLOCK FALSE
